@@ -474,6 +474,35 @@ def rebuild(op, args):
     return T(op, tuple(args))
 
 
+def drop_small_addends(t, eps=Q(1, 10 ** 16), count=None):
+    """Assumption A2: a literal of magnitude <= eps added to another quantity is treated as 0.
+    Returns the rewritten term; count (a list) collects the number of places."""
+    cache = {}
+
+    def go(u):
+        r = cache.get(u.id)
+        if r is not None:
+            return r
+        if u.op in ("c", "v", "T", "F"):
+            r = u
+        else:
+            args = [go(a) if isinstance(a, T) else a for a in u.args]
+            if u.op == "+":
+                kept = []
+                for a in args:
+                    if a.op == "c" and 0 < abs(a.args[0]) <= eps:
+                        if count is not None:
+                            count.append(a.args[0])
+                        continue
+                    kept.append(a)
+                args = kept
+            r = rebuild(u.op, args)
+        cache[u.id] = r
+        return r
+
+    return go(lift(t))
+
+
 def assume_conditions(t, truth):
     """Resolve ite/booleans in t given truth: dict cond-term -> bool."""
     m = {}
